@@ -1,9 +1,10 @@
 """C19 - transfers between geometries: block_mapping, t2incon.transfer_from, t2data.transfer_from.
 
-Space: every ordered pair (identity pairs included) of a family of 10 geometries over one 5000 x 4000 x 3000 m
+Space: every ordered pair (identity pairs included) of a family of 12 geometries over one 5000 x 4000 x 3000 m
 region x all 3 x 3 source/target atmosphere types x naming conventions (all 16 pairs where both sides are
 rectangular-built, 4 where one side is the shipped g7) x 1..5 primary variables, crossed completely; for the
-model transfer every geometry x atmosphere type x convention x 26 generator sets x preserve totals x rename.
+model transfer every geometry x atmosphere type x convention x 26 generator sets (x 3 generator namings for 11 of
+them) x preserve totals x rename.
 Oracle: the property statement against ref/mapmodel.py (all distances computed, ties accepted).
 """
 import contextlib
@@ -30,20 +31,24 @@ ASSUMPTIONS = [
     'family: A 5x4x5 rectangular, B 10x8x10 (nested in A: centre ties), C 4x5x6 (not nested), D = A with 4 columns '
     'refined, E = A with 2 layers refined, F = A shifted by (300,-200,100), G = A with lowered surfaces (a layer down / '
     'mid second layer), H = B with a stepped slope surface, I = shipped tests/mulgrid/g7.dat, J = g7 with its SW '
-    'corner refined',
+    'corner refined, K = A\'s columns with layers 120/300/1200/500/880 m, L = K with every layer refined by 3',
     'a nearest column/layer is any within 1e-9 (relative to the region size) of the smallest computed distance',
     'atmosphere images are asserted only when the source has atmosphere blocks; target type 0 <- source type 1 '
     'accepts any source atmosphere block',
     'block names are decoded through the library\'s own block_name()/layer/column tables (naming is C17\'s subject)',
     'initial conditions are built in the source geometry\'s block order (atmosphere blocks first), which '
     't2incon.transfer_from relies on (sourceinc[0] is the atmosphere block)',
-    'model transfer is asserted on identical geometries only (statement); generator names are category + the column '
-    'of their block, and a listed top (bottom) category is only given to generators in the top (bottom) block of a column',
+    'model transfer is asserted on identical geometries only (statement); a listed top (bottom) category is only given '
+    'to generators in the top (bottom) block of a column; generator names are <column of the block><category> '
+    '(canonical), <another column><category> or <no column><category>; the name is expected to be kept, except that '
+    'top/bottom generators always, and the others under rename_generators, get the canonical name (docstring of '
+    'transfer_generators_from: "renamed according to their new column names")',
     'refine() names its new columns in address-hashed set order: cases are identified by family letters, never by names']
-BOUNDS = {'quick': {'geometries': 'A B G J (16 ordered pairs)', 'atmosphere': '3 x 3', 'conventions': '(0,0) (0,1) (2,3)',
-                    'variables': '1..5', 'model': 'A, G x 3 atmosphere x conventions 0, 2 x 26 generator sets x 2 x 2'},
-          'thorough': {'geometries': 'A..J (100 ordered pairs)', 'atmosphere': '3 x 3', 'conventions': 'all 16 (4 with g7/J)',
-                       'variables': '1..5', 'model': 'A..J x 3 atmosphere x 4 conventions (1 for g7/J) x 26 x 2 x 2'}}
+BOUNDS = {'quick': {'geometries': 'A B G J K L (36 ordered pairs)', 'atmosphere': '3 x 3', 'conventions': '(0,0) (0,1) (2,3)',
+                    'variables': '1..5', 'model': 'A, G x 3 atmosphere x conventions 0, 2 x (26 + 11 x 2) generator sets x 2 x 2'},
+          'thorough': {'geometries': 'A..L (144 ordered pairs)', 'atmosphere': '3 x 3', 'conventions': 'all 16 (4 with g7/J)',
+                       'variables': '1..5', 'model': 'A..L x 3 atmosphere x 4 conventions (1 for g7/J) x (26 sets canonical names + 11 sets x 2 '
+                                'non-canonical namings) x 2 x 2'}}
 TECHNIQUE = ('exhaustive enumeration of geometry pairs x atmosphere arrangements x conventions through the real '
              'block_mapping / transfer_from code against a brute-force nearest-centre reference')
 LEVEL_TEXT = ('Every ordered pair of the family, every one of the 9 atmosphere combinations and every convention pair is '
@@ -51,8 +56,8 @@ LEVEL_TEXT = ('Every ordered pair of the family, every one of the 9 atmosphere c
               'computed by brute force; initial conditions and generators are transferred for each and compared value by value.')
 LEVEL_NOTE = ('The family is 10 fixed geometries over one region, not arbitrary geometries; ties are accepted either way.')
 
-FAMILY = 'ABCDEFGHIJ'
-RECT = 'ABCDEFGH'
+FAMILY = 'ABCDEFGHIJKL'
+RECT = 'ABCDEFGHKL'
 G7FILE = os.path.join(core.REPO, 'tests', 'mulgrid', 'g7.dat')
 DEFAULT_ATM = [1.013e5, 20.]
 
@@ -85,6 +90,11 @@ def build(gid, conv):
             geo = mulgrid().rectangular([1000.] * 5, [1000.] * 4, [600.] * 5, convention=conv, atmos_type=1)
         elif gid in 'BH':
             geo = mulgrid().rectangular([500.] * 10, [500.] * 8, [300.] * 10, convention=conv, atmos_type=1)
+        elif gid in 'KL':
+            # strongly non-uniform layers: centres of uniform layers fall inside a thick layer but nearer
+            # the centre of the thin layer next to it
+            geo = mulgrid().rectangular([1000.] * 5, [1000.] * 4, [120., 300., 1200., 500., 880.],
+                                        convention=conv, atmos_type=1)
         elif gid == 'C':
             geo = mulgrid().rectangular([1250.] * 4, [800.] * 5, [500.] * 6, convention=conv, atmos_type=1)
         else:
@@ -107,6 +117,8 @@ def build(gid, conv):
                 i, j = k % 10, k // 10
                 col.surface = -(i + j) * 75.0
                 geo.set_column_num_layers(col)
+        elif gid == 'L':
+            geo.refine_layers(factor=3)
         elif gid == 'J':
             geo.refine([c for c in geo.columnlist if c.centre[0] < 2000. and c.centre[1] < 2000.])
         geo.setup_block_name_index()
@@ -179,7 +191,7 @@ def conv_pairs(s, t, tier):
 
 
 def units(tier):
-    fam = 'ABGJ' if tier == 'quick' else FAMILY
+    fam = 'ABGJKL' if tier == 'quick' else FAMILY
     us = [('map', s, t) for s in fam for t in fam]
     gens = 'AG' if tier == 'quick' else FAMILY
     us += [('model', g, conv) for g in gens
@@ -449,7 +461,7 @@ def gen_sets():
     return singles + [[(p, k) for p in GEN_POS for k in GEN_KINDS]]
 
 
-def make_generator(geo, pos, kind, slot):
+def make_generator(geo, pos, kind, slot, naming='canon'):
     from t2data import t2generator
     ki = GEN_KINDS.index(kind)
     col = geo.columnlist[(3 * GEN_POS.index(pos) + 5 * ki + slot) % geo.num_columns]
@@ -462,8 +474,18 @@ def make_generator(geo, pos, kind, slot):
         lay = geo.layerlist[min(first + 1, geo.num_layers - 2)] if geo.num_layers - first > 2 else geo.layerlist[-1]
     block = geo.block_name(lay.name, col.name)
     cat = category(geo, CATS[pos], ki)
-    name = geo.block_name(cat, col.name)
+    canon = geo.block_name(cat, col.name)
+    if naming == 'canon':
+        colpart = col.name
+    elif naming == 'othercol':              # the name carries ANOTHER column's name
+        colpart = geo.columnlist[(geo.columnlist.index(col) + 1) % geo.num_columns].name
+    else:                                   # the name carries no column name at all
+        colpart = {2: '99', 3: 'zzz' if geo.convention in (0, 3) else '999'}[geo.colname_length]
+        if colpart in geo.column:
+            raise core.HarnessError('%r is a column name' % colpart)
+    name = geo.block_name(cat, colpart)
     g = t2generator(name=name, block=block)
+    g._canon = canon
     base = 1.5 + ki + 0.25 * GEN_POS.index(pos)
     if kind == 'const':
         g.type, g.gx, g.ex = 'MASS', base, 1.2e6
@@ -497,7 +519,10 @@ def eval_model_case(case):
     set_atm(src, atm)
     set_atm(tgt, atm)
     gset = gen_sets()[case['set']]
+    naming = case.get('naming', 'canon')
     label = 'all' if len(gset) > 1 else '%s/%s' % gset[0]
+    if naming != 'canon':
+        label += ',name=' + naming
     cls = '%s,preserve=%d,rename=%d' % (label, case['preserve'], case['rename'])
     if not (case['preserve'] or case['rename']):
         cls = label
@@ -516,16 +541,25 @@ def eval_model_case(case):
         dat = _models[dkey]
         dat.clear_generators()
         top, bottom = [], []
+        want = []
         for slot, (pos, kind) in enumerate(gset):
-            g, cat = make_generator(src, pos, kind, slot)
+            g, cat = make_generator(src, pos, kind, slot, naming)
+            canon = g._canon
+            del g._canon
             if (g.block, g.name) in dat.generator:
                 raise core.HarnessError('generator key clash in the model set')
             dat.add_generator(g)
+            # top/bottom generators are named after their column by the transfer, the others only when
+            # rename_generators is set (docstring of transfer_generators_from); otherwise the name is kept
+            renamed = pos.endswith('-listed') or case['rename']
+            r = gen_record(g)
+            want.append((r[0], canon if renamed else r[1]) + r[2:])
             if pos == 'top-listed':
                 top.append(cat)
             elif pos == 'bottom-listed':
                 bottom.append(cat)
-    want = sorted(gen_record(g) for g in dat.generatorlist)
+    want.sort()
+    before = sorted(gen_record(g) for g in dat.generatorlist)
     rocks = dict((b.name, b.rocktype.name) for b in dat.grid.blocklist)
     new = t2data()
     try:
@@ -541,7 +575,7 @@ def eval_model_case(case):
                  'transfer_from onto an identical geometry (%s) raised %r' % (gid, e))]
     got = sorted(gen_record(g) for g in new.generatorlist)
     out = []
-    if sorted(gen_record(g) for g in dat.generatorlist) != want:
+    if sorted(gen_record(g) for g in dat.generatorlist) != before:
         out.append(('C19|t2data.transfer_from|source-altered|' + cls, 'the source generators changed'))
     gk, wk = [r[:2] for r in got], [r[:2] for r in want]
     if gk != wk:
@@ -588,12 +622,17 @@ def run_model_case(case):
 
 
 def model_cases(gid, conv):
+    sets = gen_sets()
     for atm in (0, 1, 2):
-        for k in range(len(gen_sets())):
-            for preserve in (0, 1):
-                for rename in (0, 1):
-                    yield {'kind': 'model', 'g': gid, 'conv': conv, 'atm': atm, 'set': k, 'preserve': preserve,
-                           'rename': rename}
+        for k in range(len(sets)):
+            for naming in ('canon', 'othercol', 'nocol'):
+                # names that do not carry the block's column: the 'all' set and the const / table singles
+                if naming != 'canon' and not (len(sets[k]) > 1 or sets[k][0][1] in ('const', 'table')):
+                    continue
+                for preserve in (0, 1):
+                    for rename in (0, 1):
+                        yield {'kind': 'model', 'g': gid, 'conv': conv, 'atm': atm, 'set': k, 'preserve': preserve,
+                               'rename': rename, 'naming': naming}
 
 
 # ---------------------------------------------------------------------------------------------- driver
